@@ -1059,6 +1059,10 @@ func (ex *Exec) doGo(f *Frame, x *ssa.Go) {
 	for i, a := range c.Args {
 		args[i] = ex.get(f, a)
 	}
+	if ex.threads != nil && ex.h.cfg.IgnoreGo && ex.h.cfg.IgnoreGoInThreads {
+		ex.stubsSeen["go statements ignored, also inside interpreted threads (background goroutine not started)"] = true
+		return
+	}
 	if ex.threads != nil {
 		if c.IsInvoke() {
 			ex.inconclusive("go on interface method in thread mode")
